@@ -71,6 +71,15 @@ def varied_sentence(rng, payload, **kw):
         kw.setdefault("report", rng.choice([b"VDM", b"VDO", b"VDX", b"ABM", b"BBM", b"vdm", b"TXT", b"\xff\xfe\xfd"]))
         kw.setdefault("channel", rng.choice([b"A", b"B", b"", b"1", b"2", b"C", b"AB"]))
         kw.setdefault("delim", rng.choice([b"!", b"!", b"$"]))
+    if rng.random() < 0.2:
+        # legal respellings that move every later field: leading zeros in the counts, a channel of several bytes
+        nf_, fn_ = kw.get("nf", 1), kw.get("fn", 1)
+        if "nf_txt" not in kw and rng.random() < 0.6:
+            kw["nf_txt"] = b"0" * rng.choice([1, 2]) + str(nf_).encode()
+        if "fn_txt" not in kw and rng.random() < 0.6:
+            kw["fn_txt"] = b"0" * rng.choice([1, 3]) + str(fn_).encode()
+        if rng.random() < 0.4:
+            kw["channel"] = rng.choice([b"AB", b"BA1", b"12"])
     if rng.random() < 0.15 and "tagblock" not in kw:
         # a tag block is skipped as a unit, whatever it contains: delimiters, commas, '*', digits
         kw["tagblock"] = rng.choice([b"t:MAYDAY!,c:1696241893*1E", b"s:$X,1,2,3,4,5,6,7*00", b"!,,,,,B,w", b"$AIVDM,1,1,,A,15M,0*00",
@@ -123,6 +132,19 @@ def near_misses(rng):
                 b"00000000%02X" % c, b"1%02X" % c, b"100", b"0FF", b"ff", b"", b"G1", b"%02Xzz" % c, b"%02XA" % c,
                 b"%02X0" % c):
         out.append(good[:good.index(b"*") + 1] + txt)
+    # signed / prefixed / padded checksum texts (the value after '*' is a run of hex digits, nothing else)
+    for txt in (b"+%X" % (c & 15), b"+%02X" % c, b"-%02X" % c, b" %02X" % c, b"0x%02X" % c, b"+0", b"+", b"-0", b"%02X " % c, b"%02X+" % c,
+                b"\t%02X" % c, b"_%02X" % c):
+        out.append(good[:good.index(b"*") + 1] + txt)
+    zb = S(b"0", fill=0)
+    zc = ais.xor_all(zb[1:zb.index(b"*")])
+    out += [zb[:zb.index(b"*") + 1] + b"+%X" % (zc & 15), zb[:zb.index(b"*") + 1] + b"+%02X" % zc]
+    # several sentences in one argument (a datagram handed over whole): one call answers for the first sentence only
+    bad_ck = good[:-2] + b"%02X" % (c ^ 0x55)
+    other = S(gen.random_alphabet(rng, 7), fill=0, channel=b"B")
+    out += [bad_ck + b"\n" + other, bad_ck + b"\r\n" + other, bad_ck + b"\r\n" + other + b"\r\n", good + b"\n" + other, good + b"\r\n" + bad_ck,
+            good + other, bad_ck + other, b"garbage\n" + other, b"\n" + other, b"\r\n" + other,
+            S(p[:5], nf=2, fn=1, mid=6, fill=0) + b"\n" + S(p[5:9], nf=2, fn=2, mid=6, fill=0)]
     out += [good[:good.index(b"*")], good.replace(b"*", b""), b"$" + good[1:], b"#" + good[1:], good[1:],
             b" " + good, b"x" + good, b"\\" + good, b"\\abc" + good, b"\\abc\\" + good, b"\\\\" + good,
             b"\\a\\b\\" + good, good + b"\r\n", good + b"\n", good + b"*FF", b"", b"!", b"!*", b"!*00", b"$*00",
@@ -133,6 +155,21 @@ def near_misses(rng):
     out += [b"\\a\\\\b\\" + good, b"\\g:1-2-7*00\\\\s:x*00\\" + good, b"\\\\\\\\" + good, b"\\a\\\\\\" + good, b"\\a\\\\b\\\\c\\" + good,
             b"\\a\\ \\b\\" + good, good[:1] + b"\\a\\" + good[1:], b"\\a*7F\\" + good, b"\\s:r1,c:2*5F\\" + good, b"\\s:r1,c:2*00\\" + good,
             b"\\s:r1,c:2*zz\\" + good, b"\\*\\" + good, b"\\*00\\" + good]
+    # a comma (or another field separator) as one of the five address bytes: the address is five bytes, whatever they are
+    for i in range(5):
+        for sep in (b",", b"!", b"$", b"\\", b"^"):
+            ad = bytearray(b"AIVDM")
+            ad[i:i + 1] = sep
+            out.append(S(p, talker=bytes(ad[:2]), report=bytes(ad[2:]), **base))
+    # more than one start delimiter, a delimiter after the tag block and another one
+    out += [b"!" + good, b"$" + good, b"!$" + good, b"$!" + good, b"!!!" + good, b"\\s:x*00\\!" + good, b"\\s:x*00\\$" + good,
+            good[:1] + good, b"!" + good[1:].replace(b"*", b"!*", 1)]
+    # NMEA escapes and grouping parameters that a helpful reader might resolve: `^HH` in payload and channel, a `g:` tag block
+    for esc in (b"^41", b"^2C", b"^2A", b"^5E", b"^0A", b"^4", b"^GG", b"^41^42"):
+        out += [S(p[:4] + esc + p[4:], **base), S(p[:6] + esc, nf=2, fn=1, mid=4, fill=0), S(p, channel=esc, **base)]
+    for g in (b"g:1-2-7", b"g:1-2-7*00", b"g:2-2-7", b"g:1-2-255", b"s:x,g:1-2-3,c:1", b"g:1-1-9", b"g:01-02-007"):
+        out += [S(p[:6], nf=2, fn=1, mid=None, fill=0, tagblock=g), S(p[:6], nf=2, fn=1, mid=3, fill=0, tagblock=g),
+                S(p, tagblock=g, **base)]
     # payload or channel containing '*' (the checksummed region ends there)
     q = p[:3] + b"*" + p[3:]
     out += [S(q, **base), S(p, channel=b"*", **base), S(p, talker=b"*I", **base)]
@@ -472,6 +509,13 @@ class C07(SentProp):
             line = rand_valid_sentence(rng)
             ops += ["N 0", "N 1", L(line, 0, 0), L(line, 1, 1)]
         yield ("structured", ops)
+        # every grammar near miss (escapes, tag blocks with grouping parameters, respelled numbers, padding ...): those of
+        # them that are accepted report their own fields and raw payload, nothing resolved, nothing borrowed
+        ops = []
+        for line in near_misses(rng):
+            if len(line) < 3000:
+                ops += ["N 0", "N 1", L(line, 0, 0), L(line, 1, 1)]
+        yield ("near-misses", ops)
         ops = []
         tk = [bytes([a, b]) for a in range(256) for b in range(256) if a != 42 and b != 42]
         if tier == "quick":
@@ -643,6 +687,11 @@ class C19(SentProp):
                     ops += ["N 0", L(varied_sentence(rng, payload, fill=0), 0, 1)]
                 else:
                     payload = bytes([b]) + gen.random_alphabet(rng, rng.choice([0, 3, 27]))
+                    if shape % 2 == 1 and len(payload) > 2:
+                        # a later byte outside the armoring alphabet: the type is the first character's affair
+                        pb = bytearray(payload)
+                        pb[rng.randrange(1, len(pb))] = rng.choice([0x20, 0x2F, 0x58, 0x5F, 0x78, 0x7E, 0x80, 0xFF])
+                        payload = bytes(pb)
                     if shape % 3 == 1:
                         ops += ["N 0", L(varied_sentence(rng, payload, nf=2, fn=1, mid=4), 0, 0)]
                     elif shape % 3 == 2:
